@@ -189,7 +189,18 @@ def _operand(t, rng, one_per_period=False):
             vals = {k: (v + 1 if isinstance(v, (int, float)) else v) for k, v in c.values.items()}
         else:
             vals = {"reported_claims" if k == "paid_loss" else k: v for k, v in c.values.items()}
-        cells.append(c.replace(values=vals))
+        c2 = c.replace(values=vals)
+        if rng.random() < 0.3 and not one_per_period:
+            # a coordinate t does not have (earlier or later evaluation date): the result interleaves both operands
+            k_ = rng.choice([-12, -3, 3, 12, 24])
+            ev = gen.add_months_int(c.evaluation_date, k_, end=True)
+            if ev >= c.period_start:
+                if hasattr(c, "prev_evaluation_date"):
+                    if k_ > 0:
+                        c2 = c2.replace(prev_evaluation_date=c.evaluation_date, evaluation_date=ev)
+                else:
+                    c2 = c2.replace(evaluation_date=ev)
+        cells.append(c2)
     return Triangle(cells)
 
 
@@ -460,12 +471,20 @@ def correspondence(ctx):
             cells = [c for m in metas for c in gen.cells_from_layout(rng, rows, m, kind=kind,
                      fields=["paid_loss", "reported_loss", "earned_premium"])]
             rng.shuffle(cells)
+            nested = True
+        else:
+            nested = False
         st, t = call(Triangle, cells)
         if st != "ok":
             continue
         names = []
-        for _ in range(rng.randrange(1, 4)):
+        for step_no in range(rng.randrange(1, 4)):
             name, fn = rng.choice(PUBLIC_OPS)
+            if nested and step_no == 0:
+                # operations whose result order depends on the detail keys of the slices
+                name, fn = rng.choice([o for o in PUBLIC_OPS if o[0] in (
+                    "loose_period_merge", "period_merge", "remove_static_details", "summarize", "split_first",
+                    "merge", "coalesce")])
             st, r = call(fn, t, rng)
             if st != "ok" or not isinstance(r, Triangle):
                 ctx.count(f"anyop/{name}/err")
